@@ -100,3 +100,13 @@ Theorem C12_between_points :
   Z.max (- ((- (10 - 3 - 1)) / 3)) 0 = Z.of_nat 2 /\ Z.max (- ((- (10 - 4 - 1)) / 4)) 0 = Z.of_nat 2.
 Proof. exact (conj LC12c.between_points_3 (conj LC12c.between_points_1 (conj LC12c.between_points_3pl LC12c.between_points_4pl))). Qed.
 Print Assumptions C12_between_points.
+
+(* the diameter-at-fraction lookup is increasing over the WHOLE of (0, 1) -- across nodes, at nodes, and in the two
+   extrapolated ends -- for every grading whose fractions and (positive) diameters both increase, which is what
+   C12_structure / C12_three_point establish for the gradings create_fracs returns *)
+From DHV Require Import LMono.
+Theorem C12_get_dx_increasing : forall (g : list (R * R)) (f1 f2 : R),
+  both_increasing g -> Forall (fun p => 0 < snd p) g -> (2 <= length g)%nat ->
+  0 < f1 -> f1 < f2 -> f2 < 1 -> get_dx RN g f1 < get_dx RN g f2.
+Proof. exact LMono.get_dx_increasing. Qed.
+Print Assumptions C12_get_dx_increasing.
